@@ -177,6 +177,15 @@ def oracle(ctx, kind, p):
                 ok, _ = ctx.call(layout.rearrange, t3, key=key, attributes_first=af, clause='rearrange')
                 if not ok:
                     continue
+                if rseed == 0 and kn != 'rand' and p['i'] % 4 == 0:
+                    # the same tree with list nodes (JSON round trip) is rearranged alike
+                    nested = T.listify(before)
+                    tl = Tree((nested[0], nested[1]))
+                    okl, _ = ctx.call(layout.rearrange, tl, key=key, attributes_first=af, clause='rearrange(list nodes)')
+                    if okl and T.tuplify(tl.node) != T.tuplify(t3.node):
+                        ctx.fail('rearrange:list-nodes-differ', mech=kn,
+                                 detail={'key': kn, 'attributes_first': af,
+                                         'before': penman.format(Tree(before), indent=None)[:400]})
                 ok, g3 = ctx.call(lambda: penman.decode(penman.format(t3), model=model), clause='decode')
                 if ok and G.graph_content(g3, rm) != base:
                     ctx.fail('rearrange:content', mech=kn,
